@@ -74,13 +74,67 @@ def check_plan(res, rng, plan, hows, tmp):
         res.violation(key + ":exception", "%s: %s" % (type(e).__name__, str(e)[:200]), case)
 
 
+CHILD = r"""
+import sys, os, pickle, warnings
+sys.path.insert(0, sys.argv[1])
+from harness.common import *
+setup_numba_cache()
+warnings.filterwarnings("ignore")
+import numpy as np, joblib
+d = sys.argv[2]
+how = sys.argv[3]
+idx = joblib.load(os.path.join(d, "idx.joblib")) if how == "joblib" else pickle.load(open(os.path.join(d, "idx.pkl"), "rb"))
+Q = pickle.load(open(os.path.join(d, "Q.pkl"), "rb"))
+a = idx.query(Q, k=5, epsilon=0.1)
+pickle.dump(a, open(os.path.join(d, "answer.pkl"), "wb"))
+"""
+
+
+def cross_process(res, rng, plan, tmp):
+    """dump here, load and query in a FRESH interpreter (nothing of this process's numba dispatchers survives)"""
+    import subprocess
+    metric, kind, compressed, tree_init = plan
+    n, dim = 90, (6 if kind != "bits" else 4)
+    X, _ = api.gen_dataset(rng, metric, kind, n, dim)
+    Q, _ = api.gen_dataset(rng, metric, kind, 15, dim)
+    if kind.startswith("dense"):
+        Q = Q * np.float32(3.0)                        # queries that are not unit-norm (the normalising metrics must still normalise them)
+    kw = api.metric_kwds(metric, rng, dim)
+    case = {"metric": metric, "kind": kind, "compressed": compressed, "tree_init": tree_init, "kwds": kw, "cross_process": True}
+    key = "pickle:%s:%s" % (kind, metric)
+    idx = NNDescent(X, metric=metric, metric_kwds=kw, n_neighbors=6, random_state=int(rng.integers(1000)),
+                    compressed=compressed, tree_init=tree_init)
+    a = idx.query(Q, k=5, epsilon=0.1)
+    for how in ("pickle", "joblib"):
+        d = os.path.join(tmp, "xp_" + how); os.makedirs(d, exist_ok=True)
+        if how == "joblib":
+            joblib.dump(idx, os.path.join(d, "idx.joblib"))
+        else:
+            pickle.dump(idx, open(os.path.join(d, "idx.pkl"), "wb"))
+        pickle.dump(Q, open(os.path.join(d, "Q.pkl"), "wb"))
+        child = os.path.join(d, "child.py"); open(child, "w").write(CHILD)
+        env = dict(os.environ); env.pop("NUMBA_CACHE_DIR", None)
+        p = subprocess.run([sys.executable, child, VERIF, d, how], stdout=subprocess.PIPE, stderr=subprocess.STDOUT, timeout=600, env=env)
+        res.count("cross_process_" + how); res.traces += 1
+        res.case((metric, kind, compressed, tree_init, "cross-process", how), True, sample={**case, "how": how})
+        if p.returncode != 0 or not os.path.exists(os.path.join(d, "answer.pkl")):
+            res.violation(key + ":cross-process-load", "loading/querying the %s dump in a fresh process failed: %s"
+                          % (how, p.stdout.decode(errors="replace")[-300:]), {**case, "how": how})
+            return
+        b = pickle.load(open(os.path.join(d, "answer.pkl"), "rb"))
+        if not same(a, b):
+            res.violation(key + ":cross-process-answers", "index loaded from the %s dump in a fresh process answers differently from the original"
+                          % how, {**case, "how": how})
+            return
+
+
 def run(res, tier, seed, search):
     rng = np.random.default_rng(seed + 606)
     res.rule = ("index plans (metric x data kind x compressed x tree_init, incl. metric_kwds, surrogate metrics, n_features metrics) "
                 "x life points {fresh, prepared, queried} x {pickle protocols, joblib}; answers compared bit-for-bit (loaded vs original, "
                 "original before vs after); every case is non-trivial; distinct = (plan, point, how)")
     if tier == "quick" and not search:
-        k = 4
+        k = 3
         start = (seed * k) % len(PLANS)
         plans = [PLANS[(start + i) % len(PLANS)] for i in range(k)]
         if not any(p[1].startswith("csr") for p in plans):
@@ -93,6 +147,10 @@ def run(res, tier, seed, search):
     try:
         for plan in plans:
             check_plan(res, rng, plan, hows, tmp)
+        xplans = [("dot", "dense32", False, True), plans[0]] if tier == "quick" and not search else \
+            [("dot", "dense32", False, True), ("cosine", "csr", False, True), ("euclidean", "dense32", True, True), ("bit_hamming", "bits", False, True)]
+        for plan in xplans:
+            cross_process(res, rng, plan, tmp)
     finally:
         shutil.rmtree(tmp, ignore_errors=True)
 
